@@ -31,8 +31,9 @@ fn eff(k: Option<u32>) -> u32 {
 
 fn explore(api: &Api, seed: u64, cx: &mut Cx) {
     let sp = api.spec;
-    let probe = api.s.family() == "probe";
-    let insts: Vec<Option<u32>> = if probe { vec![None, Some(0), Some(1), Some(2)] } else { vec![None, Some(0), Some(1), Some(3), Some(4), Some(5)] };
+    let unit = api.s.family() == "unit";
+    let probe = api.s.family() == "probe" || unit;
+    let insts: Vec<Option<u32>> = if unit { vec![None, Some(0)] } else if probe { vec![None, Some(0), Some(1), Some(2)] } else { vec![None, Some(0), Some(1), Some(3), Some(4), Some(5)] };
     let pws: Vec<&[u8]> = if probe { vec![b"correct horse", b""] } else { vec![b"correct horse"] };
     let mut t = Tape::seeded(seed, "c15/setup");
     let setup = match api.setup(&mut t) {
@@ -190,6 +191,9 @@ fn explore(api: &Api, seed: u64, cx: &mut Cx) {
                     cx.edges += 1;
                     match rf {
                         Err(E::Panic(m)) => cx.violate("login/ksf-failure-panics", m),
+                        // InvalidLoginError is the library's statement "wrong password / unknown user" (C02, C08): a
+                        // stretching failure with the RIGHT password reported that way is not returned as what it is
+                        Err(E::InvalidLogin) => cx.violate("login/ksf-failure-reported-as-invalid-login", "the stretching function failed during a login with the correct password and the client reports InvalidLoginError (wrong password) instead of the failure".into()),
                         Err(_) => cx.outcome("ksf-failure-returned-as-error"),
                         Ok(_) => cx.violate("login/ksf-failure-swallowed", "login finish succeeds although the KSF failed".into()),
                     }
@@ -212,6 +216,8 @@ pub fn run(tier: Tier, seed: u64) -> i32 {
     crate::vectors::require();
     let mut items = apis_of(crate::adapter::probe::suites());
     items.extend(apis_of(crate::adapter::argon::suites()));
+    // a zero-sized user-defined stretching function (struct MyKsf;)
+    items.extend(apis_of(crate::adapter::unit::suites()));
     let mut tot = Totals::default();
     tot.merge(fw::run_items("C15", &items, |a| format!("{}:{}", a.s.family(), a.name()), |api, cx| explore(api, seed, cx)));
     let rep = Report {
